@@ -202,7 +202,53 @@ pub fn generate(prop: &str, base_seed: u64, batch: &str, run: u64) -> Scenario {
     }
 }
 
+/// C01, part of the faults batch: a method whose argument's `Debug` panics when anybody renders it,
+/// with overlapping patterns written with the real `matching!` macro. Every call is accepted by some
+/// pattern, so no error is ever reported and nobody has a reason to render the argument: patterns
+/// that reject it must not influence the answer - not even by formatting it.
+fn gen_c01_debug_silent(base_seed: u64, batch: &str, run: u64, rng: &mut Rng) -> Scenario {
+    let n = rng.range(2, 4);
+    let mut clauses = vec![];
+    let mut union = 0u32;
+    for _ in 0..n {
+        let pred = (rng.next() as u32) & 0xf;
+        union |= pred;
+        clauses.push(ClauseSpec {
+            m: M::D0,
+            form: if rng.chance(1, 2) { Form::EachCall } else { Form::Stub },
+            patterns: vec![PatternSpec { pred, has_matcher: true, macro_form: true, segs: vec![Seg { resp: Resp::Returns, quant: Quant::Unq }] }],
+        });
+    }
+    if union == 0 {
+        clauses[0].patterns[0].pred = 0xf;
+        union = 0xf;
+    }
+    let config = Config { partial: false, clauses, nest_seed: rng.next() | 1, ..Default::default() };
+    let accepted: Vec<u8> = (0..4u8).filter(|x| union >> x & 1 == 1 && *x != 3).collect();
+    let mut ops = vec![];
+    if !accepted.is_empty() {
+        for _ in 0..rng.range(1, 6) {
+            ops.push(Op::Call { slot: 0, m: M::D0, x: *rng.pick(&accepted), y: 0, catch: true, fault: Some(Fault::DebugPanic), keep: false });
+        }
+    }
+    ops.push(Op::Verify { slot: 0 });
+    Scenario {
+        prop: "C01".into(),
+        base_seed,
+        run,
+        batch: batch.into(),
+        config,
+        config2: None,
+        threads: vec![ops],
+        sched: gen_sched(rng, false),
+        knobs: vec![("prelude".into(), 0), ("debug_silent".into(), 1)],
+    }
+}
+
 fn gen_coarse(prop: &str, base_seed: u64, batch: &str, run: u64, rng: &mut Rng) -> Scenario {
+    if prop == "C01" && batch == "faults" && rng.chance(1, 10) {
+        return gen_c01_debug_silent(base_seed, batch, run, rng);
+    }
     let mut co = CfgOpts::default();
     let mut ho = HistOpts::default();
     match prop {
@@ -435,11 +481,19 @@ fn check_coarse(scn: &Scenario) -> Checked {
         return Checked { violations: vec![], stats, harness_error: Some(e) };
     }
     if let Some(e) = &res.build_error {
-        // the generator only emits constructible configurations
+        // the generator only emits configurations that the reference model says are consistent
+        // (one ordering mode per method, every pattern has a response, exact counts before then()):
+        // the statements quantify over all of them, so a mock that cannot even be built from one
+        // cannot answer its calls as stated
         return Checked {
-            violations: vec![],
+            violations: vec![crate::oracle::v(
+                &scn.prop,
+                "consistent-configuration-is-constructible",
+                "Unimock::new",
+                format!("Unimock::new panicked on a consistent clause set: {e}"),
+            )],
             stats,
-            harness_error: Some(format!("mock construction failed: {e}")),
+            harness_error: None,
         };
     }
     let violations = match scn.prop.as_str() {
